@@ -1,4 +1,5 @@
 """C02 — Unauthenticated responses never influence the updater."""
+import re
 from ..core import BV, strip, walk, fmt_t, is_logging_span
 from .. import lib, guards, sm as smod, census
 from ..sm import reach, path, reach_in, reach_pf
@@ -178,29 +179,37 @@ def run(F, R):
     R.rule("C02-R2", "RequestBuilder::build returns Some(metadata) exactly when a handler is passed (so 'handler configured, metadata missing' cannot occur)")
     bi_ = lib.one(R, "C02-R2", c, "RequestBuilder::build_intermediate", item="build_intermediate", impl_self="request_builder::RequestBuilder")
     if bi_:
+        from .. import optnorm, flow as _flow, terms as _terms
+        W2 = _flow.World([c])
+        meta = None
+        for x in walk(bi_.trace_local(0)):
+            if x[0] == "agg" and x[1] == "tuple" and len(x[3]) == 2:
+                meta = x[3][1]
         ok = False
-        det = ""
-        for sb in sorted(bi_.reach0):
-            si = guards.switch_info(bi_, sb)
-            if si and si.kind == "discr" and si.ty.get("d") == "std::option::Option" and "Cupv2RequestHandler" in si.ty.get("s", ""):
-                vals = {}
-                for b in bi_.succ[sb]:
-                    region = bi_.arm_region(sb, b)
-                    with bi_.restrict(region):
-                        ret = bi_.trace_local(0)
-                    for nme in si.edge_names(bi_, b):
-                        vals[nme] = ret
-                some = fmt_t(vals.get("Some", ("undef",)))
-                none = fmt_t(vals.get("None", ("undef",)))
-                det = "Some -> %s ; None -> %s" % (some[-160:], none[-120:])
-                def meta(t):
-                    # Ok((intermediate, meta))
-                    for x in walk(t):
-                        if x[0] == "agg" and x[1] == "tuple" and len(x[3]) == 2:
-                            return x[3][1]
-                    return None
-                ms, mn = meta(vals.get("Some", ("undef",))), meta(vals.get("None", ("undef",)))
-                ok = ms is not None and mn is not None and ms[0] == "agg" and ms[2].endswith("Option::Some") and "decorate_request" in fmt_t(ms) and mn[0] == "agg" and mn[2].endswith("Option::None")
+        det = "no (intermediate, metadata) tuple returned"
+        if meta is not None:
+            bodies2 = []
+            lv = optnorm.leaves(W2, bi_, meta, bodies2)
+            somes = [optnorm.canon(_terms.render(bi_, l[1], W2, {1: "self", 2: "handler"})) for l in lv if l[0] == "some"]
+            others = [l for l in lv if l[0] == "other"]
+            det = "Some -> %s ; None alternatives: %d ; other: %d" % ([s_[:90] for s_ in somes], len([l for l in lv if l[0] == "none"]), len(others))
+            # Some(..) carries decorate_request called on the payload of the handler option (so it exists only with a handler) ..
+            ok = bool(somes) and not others and all(re.match(r"decorate_request\((as_ref\()?handler\)?@OK, ", s_) and s_.endswith("@OK") for s_ in somes) and any(l[0] == "none" for l in lv)
+            # .. and a None built by hand is built only on the no-handler edge
+            for v_ in bodies2:
+                nn = [b_ for b_ in sorted(v_.reach0) for s_ in v_.blocks[b_]["s"] if s_["k"] == "assign" and s_["r"]["k"] == "agg" and s_["r"].get("vn") == "None" and "RequestMetadata" in v_.place_ty(s_["p"])["s"]]
+                if not nn:
+                    continue
+                noh = []
+                for sb in sorted(v_.reach0):
+                    si = guards.switch_info(v_, sb)
+                    if si and si.kind == "discr" and si.ty.get("d") == "std::option::Option" and "Cupv2RequestHandler" in si.ty.get("s", ""):
+                        for tg in v_.succ[sb]:
+                            if "Some" not in si.edge_names(v_, tg):
+                                noh.append((sb, tg))
+                if not (noh and all(v_.dominated_by_edge(b_, noh) for b_ in nn)):
+                    ok = False
+                    det += " ; a None metadata is built on a path where a handler is present"
         R.check("C02-R2", "metadata-iff-handler", ok, det, "build_intermediate does not return Some(decorate_request(..)?) under Some(handler) and None otherwise: " + det)
     b_ = lib.one(R, "C02-R2", c, "RequestBuilder::build", item="build", impl_self="request_builder::RequestBuilder")
     if b_:
